@@ -195,7 +195,14 @@ class Source:
         for m in re.finditer(r'\bmacro_rules!\s*(\w+)\s*\{', self.mask):
             o = m.end() - 1
             e = match_close(self.mask, o)
-            res.append(dict(name=m.group(1), text=self.src[m.start():e + 1], line=self.line_of(m.start())))
+            # keep the attributes in front of the item (#[macro_export], #[doc(hidden)])
+            st = m.start()
+            while True:
+                am = re.search(r'#\[[^\]]*\]\s*$', self.mask[:st])
+                if not am:
+                    break
+                st = am.start()
+            res.append(dict(name=m.group(1), text=self.src[st:e + 1], line=self.line_of(m.start())))
         if not res:
             raise ExtractError('lost anchor: no macro_rules! in %s' % self.rel)
         return res
@@ -542,6 +549,15 @@ def expand(template_path, repo, twin_suffix=None):
                 out.extend(body.split('\n'))
                 meta['functions'].append(dict(name=vname, orig=name, twin=twin, file=rel, line=fn['line'], end_line=fn['end_line'],
                                               out_start=start_line, out_end=len(out), contract_start=c_start))
+        elif s.startswith('//@PROBE'):
+            # the template function that follows (up to the next line that is exactly "}") MUST FAIL
+            # verification: vacuity / sensitivity probe
+            name = s[len('//@PROBE'):].strip()
+            j = i + 1
+            while j < len(lines) and lines[j] != '}':
+                j += 1
+            meta.setdefault('probes', []).append(dict(name=name, out_start=len(out) + 1, out_end=len(out) + (j - i)))
+            i += 1
         elif s.startswith('//@'):
             raise ExtractError('unknown directive: ' + s)
         else:
